@@ -168,7 +168,8 @@ func TestHarness(t *testing.T) {
 						argcs = append(argcs, a-1)
 					}
 				} else {
-					argcs = []int{r.Intn(3)}
+					// no arguments (what a context-less method would need if it were invocable) and one other count
+					argcs = []int{0, 1 + r.Intn(2)}
 					if p == "CallClosure" {
 						argcs = []int{2, 0, 3}
 					}
@@ -241,6 +242,12 @@ func TestHarness(t *testing.T) {
 					emit(guard("conc", "cborBytesCodec", seed, func() SysRecord { return FamConc(cborBytesCodec(), seed) }))
 				}
 			}
+			if has("conc") && i == job.Params["offset"] {
+				emit(guard("conc", "json-raw", seed, func() SysRecord { return FamNames(seed) }))
+			}
+			if has("closures") && i == job.Params["offset"] {
+				emit(guard("closures", "json-raw", seed, func() SysRecord { return FamNilLocalCaller(seed) }))
+			}
 			if has("hub") {
 				switch cfg {
 				case 0:
@@ -286,7 +293,7 @@ func TestHarness(t *testing.T) {
 					emit(guard("linkend", "json-raw", seed, func() SysRecord { return FamNilCtx(seed, k == 9) }))
 				} else if k < 12 {
 					emit(guard("linkend", "json-raw", seed, func() SysRecord { return FamMassEnd(seed, k == 11) }))
-				} else if k < 15 {
+				} else if k < 17 {
 					emit(guard("linkend", "json-raw", seed, func() SysRecord { return FamLinkEndMore(seed, k-12) }))
 				}
 			}
@@ -348,6 +355,9 @@ func TestHarness(t *testing.T) {
 					emit(guard("earlycancel", "json-raw", seed, func() SysRecord { return FamEnumPanic(seed) }))
 					emit(guard("earlycancel", "json-raw", seed, func() SysRecord { return FamDeadlineEnd(seed, k == 1) }))
 					emit(guard("earlycancel", "json-raw", seed, func() SysRecord { return FamLinkHooksOnly(seed, k) }))
+					if k == 0 {
+						emit(guard("earlycancel", "json-raw", seed, func() SysRecord { return FamBigNames(seed) }))
+					}
 				}
 			}
 			if has("enumrace") {
@@ -412,7 +422,7 @@ func TestHarness(t *testing.T) {
 			for v := 0; v < 3; v++ {
 				emit(guard("framing", "json-raw", seed, func() SysRecord { return FamFraming(seed, v) }))
 			}
-			for sc := 0; sc < 2; sc++ {
+			for sc := 0; sc < 4; sc++ {
 				for _, st := range []bool{false, true} {
 					emit(guard(fmt.Sprintf("parity%d", sc), "json-raw", seed, func() SysRecord { return FamParity(seed, st, sc) }))
 				}
